@@ -88,10 +88,27 @@ func filterRun(r *vh.Runner, c *vh.Case, i int) {
 	if r.Thorough() && rng.Chance(0.3) {
 		total = rng.Pick(1200, 2500)
 	}
+	// the history may be long already: the sender's counter starts where the
+	// harness wants to look (2^32 packets cannot be produced by sending them)
+	base := []uint64{0, 0, 1<<32 - 40, 1<<32 + 5, 1 << 40, 1<<62 + 17, 1<<63 - 3000}[rng.Intn(7)]
+	if base != 0 {
+		if dir == dirC2S {
+			s.cl.VerifSetSendCounter(base)
+		} else {
+			s.h.VerifSetSendCounter(base)
+		}
+	}
+	// some messages are empty (a packet with an empty payload is a packet)
+	empty := map[uint32]bool{}
 	for k := 0; k < total; k++ {
 		seq++
 		id := msgID{s.idx, dir, 0, seq}
-		if err := wr.WriteMsg(build(r.Seed, id, hdrLen+rng.Pick(0, 1, 30))); err != nil {
+		msg := build(r.Seed, id, hdrLen+rng.Pick(0, 1, 30))
+		if rng.Chance(0.06) {
+			msg = nil
+			empty[seq] = true
+		}
+		if err := wr.WriteMsg(msg); err != nil {
 			c.Inconclusive("write failed: " + err.Error())
 			return
 		}
@@ -116,6 +133,9 @@ func filterRun(r *vh.Runner, c *vh.Case, i int) {
 		rd.SetReadDeadline(time.Time{})
 		if err != nil {
 			return msgID{}, false
+		}
+		if n == 0 {
+			return msgID{Seq: 0}, true // an empty message: identified by the packet it came in
 		}
 		id, _, _ := parse(buf[:n])
 		return id, true
@@ -196,7 +216,7 @@ func filterRun(r *vh.Runner, c *vh.Case, i int) {
 		want := m.accepts(p.ctr)
 		note(fmt.Sprintf("genuine@%d:%v", p.ctr-held[0].ctr, want))
 		switch {
-		case delivered && got != p.id:
+		case delivered && got != p.id && !(empty[p.id.Seq] && got.Seq == 0):
 			d := det()
 			d["got"] = got.String()
 			c.Violate("C14:channel:another-message-delivered", d)
